@@ -215,7 +215,7 @@ def _two_job(a):
             for k in b:
                 if not np.array_equal(a[k], b[k]):
                     err = float(np.max(np.abs(a[k] - b[k]))) / max(float(np.max(np.abs(b[k]))), 1e-300) if a[k].shape == b[k].shape else float("inf")
-                    if err > 1e-14:
+                    if not (err <= 1e-14):
                         bad.append(("two:%s:%s" % (ta, TWO_KINDS[p]), {"var": k, "err": err}))
                         break
     return {"h": h, "pair": pair, "bad": bad}
@@ -278,7 +278,7 @@ def _admissible_job(k):
     for kk in a:
         if kk in b and a[kk].shape == b[kk].shape and a[kk].size:
             sc = max(float(np.max(np.abs(a[kk]))), 1e-300)
-            if float(np.max(np.abs(a[kk] - b[kk]))) > 1e-13 * sc:
+            if not (float(np.max(np.abs(a[kk] - b[kk]))) <= 1e-13 * sc):
                 bad.append(("admissible:not_repeatable", {"kind": kind, "var": kk}))
                 break
     return {"k": k, "bad": bad, "case": {"kind": kind, "nx": nx, "ny": ny, "sym": sym, "shape": shape}}
@@ -350,7 +350,7 @@ def _multisec_job(k):
         for kk in ("CL", "CD", "CM", "uni"):
             if not np.all(np.isfinite(r[kk])):
                 bad.append(("multisec:nonfinite", {"var": kk}))
-            elif r[kk].shape != ref[kk].shape or float(np.max(np.abs(r[kk] - ref[kk]))) > 1e-13 * max(float(np.max(np.abs(ref[kk]))), 1e-300):
+            elif r[kk].shape != ref[kk].shape or not (float(np.max(np.abs(r[kk] - ref[kk]))) <= 1e-13 * max(float(np.max(np.abs(ref[kk]))), 1e-300)):
                 bad.append(("multisec:not_repeatable", {"var": kk, "problem": i}))
                 break
     return {"k": k, "bad": bad, "case": {"kind": "multisec_user_meshes", "sections": ns, "nx": nx}}
